@@ -67,6 +67,13 @@ def jobs(tier):
                        budget_s=2400, crosscheck_every=500,
                        bounds='scope: top-level variable of symbolic type and finality + a local of the use-site projected type '
                               'Hh<out Aa> whose class has the non-final field hf: Gg<T2>; every RNG outcome', outside=U.OUT))
+        if lang in ('java', 'groovy'):
+            out.append(Job('gen_variable-numeric-%s' % lang, U.harness,
+                           dict(lang=lang, unit='gen_variable', aspect=ASPECT, nvars=1, with_nested=False, numeric=True),
+                           split_depth=6, functions=U.FUNCS['gen_variable'], stubs=U.STUBS, require_events=['unit:gen_variable'],
+                           budget_s=2400, crosscheck_every=500,
+                           bounds='variable and expected types from {short, int, Integer, Long, Short} (primitive and boxed side by '
+                                  'side), judged by the assignment conversions of JLS 5.2; every RNG outcome', outside=U.OUT))
         out.append(Job('generate_expr-bounded-%s' % lang, U.harness,
                        dict(lang=lang, unit='generate_expr', aspect=ASPECT, nvars=0, with_nested=False, bounded=True),
                        split_depth=6, functions=U.FUNCS['generate_expr'], stubs=U.STUBS, require_events=['unit:generate_expr'],
